@@ -388,6 +388,114 @@ fn mock_display(sh: &Sh) -> Unimock {
     .no_verify_in_drop()
 }
 
+
+// ------------------------------------------- mirrored traits reached from a user trait's default body
+
+/// A user trait whose default body formats `self` both ways: through the delegation helper the two
+/// renderings still go to the mirrored `Debug` and `Display` entry points respectively.
+#[unimock(api = NamedMock)]
+pub trait Named: core::fmt::Debug + core::fmt::Display {
+    fn describe(&self) -> String {
+        format!("{self:?}|{self}|{self:?}")
+    }
+}
+
+struct PlainNamed;
+
+impl core::fmt::Debug for PlainNamed {
+    fn fmt(&self, f: &mut core::fmt::Formatter<'_>) -> core::fmt::Result {
+        write!(f, "DBG")
+    }
+}
+
+impl core::fmt::Display for PlainNamed {
+    fn fmt(&self, f: &mut core::fmt::Formatter<'_>) -> core::fmt::Result {
+        write!(f, "DSP")
+    }
+}
+
+impl Named for PlainNamed {}
+
+fn lifecycle_cells(t: &mut Tally<'_>) {
+    use unimock::mock::core::fmt::{DebugMock, DisplayMock};
+    use unimock::mock::std::error::ErrorMock;
+    use unimock::mock::std::io::WriteMock;
+    let mut cell = |name: &str, got: Result<String, String>, want: &str| {
+        t.ctx.tick();
+        t.stats.add("traces_validated_against_impl", 1);
+        t.stats.add("transitions", 1);
+        t.stats.add("lifecycle_cells", 1);
+        if got.as_deref() != Ok(want) {
+            t.ctx.violation(
+                &format!("bundled-lifecycle:{name}"),
+                &format!("{name}: a plain implementation gives {want:?}, the mock gave {got:?}"),
+                J::obj().set("what", name),
+            );
+        }
+    };
+    // Debug and Display of self inside a delegated default body
+    let got = catch(|| {
+        let u = Unimock::new((
+            DebugMock::fmt.each_call(matching!(_)).answers(&|_, f| write!(f, "DBG")).n_times(2),
+            DisplayMock::fmt.each_call(matching!(_)).answers(&|_, f| write!(f, "DSP")).n_times(1),
+        ));
+        let text = u.describe();
+        let direct = format!("{u:?}/{u}");
+        let verdict = catch(move || drop(u.no_verify_in_drop()));
+        format!("{text} {direct} {verdict:?}")
+    });
+    cell("Debug+Display in a delegated default body", got, &format!("{} DBG/DSP Ok(())", PlainNamed.describe()));
+    // counts are judged as usual after delegation (the helper is released first)
+    let got = catch(|| {
+        let u = Unimock::new((
+            DebugMock::fmt.each_call(matching!(_)).answers(&|_, f| write!(f, "DBG")).n_times(2),
+            DisplayMock::fmt.each_call(matching!(_)).answers(&|_, f| write!(f, "DSP")).n_times(1),
+        ));
+        let text = u.describe();
+        let verdict = catch(move || u.verify());
+        format!("{text} {verdict:?}")
+    });
+    cell("explicit verify() after a delegated default body", got, &format!("{} Ok(())", PlainNamed.describe()));
+    // no_verify_in_drop(), an un-mocked provided method (internal helper clone), then verify()
+    for through_clone in [false, true] {
+        let got = catch(|| {
+            let mut u = Unimock::new(WriteMock::write.each_call(matching!(_)).answers(&|_, buf| Ok(buf.len())).n_times(1)).no_verify_in_drop();
+            let r = if through_clone {
+                let mut c = u.clone();
+                let r = c.write_all(b"ab");
+                drop(c);
+                r
+            } else {
+                u.write_all(b"ab")
+            };
+            let verdict = catch(move || u.verify());
+            format!("{} {verdict:?}", show(&r))
+        });
+        cell(
+            if through_clone { "no_verify_in_drop + provided method on a clone + verify()" } else { "no_verify_in_drop + provided method + verify()" },
+            got,
+            "Ok(()) Ok(())",
+        );
+    }
+    // an error chain the natural way: source() lends a derived mock
+    let got = catch(|| {
+        use std::error::Error;
+        let u = Unimock::new((
+            ErrorMock::source
+                .next_call(matching!())
+                .answers(&|u| Some(u.make_ref(u.clone()) as &(dyn Error + 'static))),
+            ErrorMock::source.next_call(matching!()).answers(&|_| None),
+        ));
+        let depth = {
+            let first = u.source().map(|inner| inner.source().is_none());
+            format!("{first:?}")
+        };
+        let verdict = catch(move || drop(u));
+        format!("{depth} {verdict:?}")
+    });
+    cell("Error::source lending a derived mock", got, "Some(true) Ok(())");
+}
+
 // ------------------------------------------------------------------------------------- driver
 
 pub struct Tally<'a> {
@@ -751,6 +859,7 @@ fn main() {
         t.compare("Debug/format!", &desc, mock_dbg.map(|r| (r, log_of(&sh3))), (plain_dbg, log_of(&sh4)));
     }
     mocked_provided_cells(&mut t);
+    lifecycle_cells(&mut t);
     // long scripts: thousands of lent chunks, released on a small stack
     for (n, stack) in [(2_000usize, 64 * 1024usize), (12_000, 256 * 1024)] {
         t.ctx.tick();
